@@ -78,9 +78,10 @@ pub trait Scenario: Sync {
     fn assumptions(&self) -> Vec<String>;
     fn components_real(&self) -> Vec<&'static str>;
     fn components_model(&self) -> Vec<&'static str>;
-    /// post-batch check over merged coverage (history checks that need the whole batch)
-    fn batch_check(&self, _cov: &Cov, _known: &Known, _hits: &mut BTreeSet<usize>) -> Option<Violation> {
-        None
+    /// post-batch history check over the merged coverage: candidate witness
+    /// traces, which the driver hands to the ordinary executor
+    fn batch_traces(&self, _cov: &Cov) -> Vec<Trace> {
+        Vec::new()
     }
 }
 
